@@ -344,7 +344,8 @@ def check_config(run, cfg, n_workers, R, table, max_live_seeds, tier, which=None
 
 
 SERIAL = [("chk_postfix_pos_level", 40), ("chk_postfix_corner_level", 60), ("chk_generate_tiles_filtered_top", 90), ("chk_reducer_step", 120),
-          ("chk_reducer_apex_stop", 60), ("chk_walk_serial_step", 60), ("chk_combine_operations", 60), ("chk_e2e_depth1", 120)]
+          ("chk_reducer_apex_stop", 60), ("chk_walk_serial_step", 60), ("chk_combine_operations", 60), ("chk_e2e_depth1", 120),
+          ("chk_e2e_unfiltered_generic", 300), ("chk_e2e_unfiltered_toast", 300)]
 SERIAL_THOROUGH = [("chk_e2e_depth2", 900), ("chk_e2e_depth2_apex1", 900)]
 
 
